@@ -493,6 +493,9 @@ class bptk():
             # step on the time grid of the scenarios, so that a session covers the same times as run_scenarios
             dt = scenario_dts.pop() if len(scenario_dts) == 1 else 1.0
 
+        # run specs given as integers must not leak into the session clock: the logs are keyed by it ("1" vs "1.0" once externalised)
+        starttime_ = float(starttime_)
+
         self.session_state = {
             "scenarios": scenarios,
             "scenario_managers": scenario_managers,
